@@ -59,11 +59,12 @@ def run_bb_stage(chk, scratch, prop_id, stage, tier, seed, replay=None):
         return list(ex.map(one, range(nshards)))
 
 
-def replay_bb(chk, scratch, prop_id, rf, path):
+def replay_bb(chk, scratch, prop_id, rf, path, stage=None):
     from props import PROPS
-    stage = None
+    if stage is not None:
+        stage = dict(stage)
     for s in PROPS[prop_id]["stages"]:
-        if s.get("engine") == "bb":
+        if stage is None and s.get("engine") == "bb":
             stage = dict(s)
             break
     test = rf.get("test", "")
